@@ -71,11 +71,13 @@ type line11 struct {
 
 // ---------------------------------------------------------------- worker (child process)
 
-// The child never collects garbage: a multi-GiB make() then always gets fresh address space
-// from the OS, which is neither zeroed nor touched (a block that is freed and re-used would be
-// cleared page by page: ~10 s and 4 GiB resident each). RLIMIT_AS is the safety net: a child
-// that runs out of it dies, and that death is an observation about the input it was parsing.
-const workerHeadroom = 1 << 40
+// Headroom of the child's RLIMIT_AS above what the Go runtime has mapped at start-up. A make()
+// of a GiB or more kills the child at once ("out of memory: cannot allocate N-byte block"); that
+// death is the observation (class 3 with the block size), and a new child continues with the
+// next input. Letting such a block be allocated instead is not an option: most of the time a
+// fresh 4 GiB block is neither zeroed nor touched, but when the allocator places it next to a
+// freed page it clears all of it (15 s, 4 GiB resident).
+const workerHeadroom = 768 << 20
 
 func limitAddressSpace() {
 	b, err := os.ReadFile("/proc/self/statm")
@@ -138,7 +140,7 @@ func (f *flagCloser) Close() error { f.closed = true; return nil }
 
 func c11worker(e *env) {
 	runtime.GOMAXPROCS(2)
-	debug.SetGCPercent(-1)
+	debug.SetGCPercent(100) // (the parent starts the child with GOGC=off to make package initialisation cheap)
 	log.SetOutput(io.Discard)
 	if dn, err := os.OpenFile(os.DevNull, os.O_WRONLY, 0); err == nil {
 		os.Stdout = dn
@@ -229,7 +231,7 @@ func c11worker(e *env) {
 				st.Class, st.Err = clClose, perr.Error()
 			}
 			emit(line11{I: i, Step: &st})
-			if inconsistent && step == 0 && st.Alloc >= 1<<30 {
+			if inconsistent && step == 0 && st.Alloc >= 1<<28 {
 				violations++
 			}
 			if st.Class == clReq || st.Class == clErr {
@@ -240,7 +242,13 @@ func c11worker(e *env) {
 			}
 		}
 		done := line11{I: i, Done: true}
-		if loopEvery > 0 && i%loopEvery == 0 {
+		sawErr := false
+		for _, c := range seq {
+			if strings.HasPrefix(c, "1:") {
+				sawErr = true
+			}
+		}
+		if loopEvery > 0 && (i%loopEvery == 0 || sawErr) {
 			// the same bytes through the real DefaultServer.Loop: it must dispatch the same
 			// requests / error replies in the same order and then close its connections
 			rd2 := &segReader{data: in.Wire}
@@ -294,10 +302,10 @@ type outcome11 struct {
 // runWorkers processes inputs[lo:hi) in child processes; a child that dies is an observation
 // about the input it was working on, and a new child continues after it.
 //
-// violationCap: a frame with contradictory length fields that makes the parser allocate a GiB
-// or more is a violation of C11 by itself (and costs ~30 ms of kernel time and 4 MiB of heap
-// metadata); once a child has seen that many, it skips the remaining frames of that kind
-// (reported in the statistics), the verdict being settled.
+// violationCap: a frame with contradictory length fields on which the child dies allocating is a
+// violation of C11 by itself (and costs a process start); once one of the parallel slots has seen
+// that many, it skips the remaining frames of that kind (reported in the statistics), the verdict
+// being settled.
 func runWorkers(e *env, ins []in11, inPath string, par int, loopEvery int, violationCap int) ([]outcome11, int) {
 	n := len(ins)
 	res := make([]outcome11, n)
@@ -311,6 +319,7 @@ func runWorkers(e *env, ins []in11, inPath string, par int, loopEvery int, viola
 			resPath := fmt.Sprintf("%s/results_%d.jsonl", e.out, k)
 			os.Remove(resPath)
 			next := k
+			viol := 0 // deaths on frames with contradictory length fields in this slot
 			for next < n {
 				var off int64
 				if fi, serr := os.Stat(resPath); serr == nil {
@@ -318,7 +327,11 @@ func runWorkers(e *env, ins []in11, inPath string, par int, loopEvery int, viola
 				}
 				cmd := exec.Command(os.Args[0], "c11worker", "-out", e.out, "in="+inPath, "res="+resPath,
 					fmt.Sprintf("from=%d", next), fmt.Sprintf("to=%d", n), fmt.Sprintf("stride=%d", par), fmt.Sprintf("loop=%d", loopEvery))
-				cmd.Args = append(cmd.Args, fmt.Sprintf("cap=%d", violationCap))
+				left := violationCap - viol
+				if left < 0 {
+					left = 0
+				}
+				cmd.Args = append(cmd.Args, fmt.Sprintf("cap=%d", left))
 				cmd.Env = append(os.Environ(), "GOMAXPROCS=2", "GOGC=off")
 				var stderr bytes.Buffer
 				cmd.Stderr = &stderr
@@ -398,6 +411,9 @@ func runWorkers(e *env, ins []in11, inPath string, par int, loopEvery int, viola
 				}
 				o.died = tail(stderr.String(), 400)
 				res[victim] = o
+				if ins[victim].Proto == "bin" && wire.Inconsistent(ins[victim].Wire) {
+					viol++
+				}
 				next = victim + par
 			}
 		}(k)
@@ -470,6 +486,9 @@ func gridInputs(tier string) []in11 {
 	for op := 0; op < 256; op++ {
 		for _, k := range reduced.k {
 			for _, t := range reduced.t {
+				if tier != "thorough" && t == 0xffffffff {
+					continue
+				}
 				add(op, k, 8, t, false)
 			}
 		}
